@@ -95,7 +95,7 @@ class Check:
         (lets a rule module skip work whose obligations would be discarded)"""
         return self.only is None or any(r in self.only for r in rids)
 
-    def absorb(self, db, module_name, rule_ids, new_rid, text, pred=None, min_instances=1):
+    def absorb(self, db, module_name, rule_ids, new_rid, text, pred=None, min_instances=1, tier=None):
         """shared rules: run another property's rule module on the same program database and
         re-report the obligations of `rule_ids` (optionally filtered by pred(record)) under
         `new_rid` of this property.  Used where a clause decided under another property is also a
@@ -106,11 +106,13 @@ class Check:
             return 0
         import importlib
         mod = importlib.import_module("fsverif.rules." + module_name)
-        ck = (module_name, self.tier, id(db), frozenset(rule_ids))
+        tier = tier or self.tier      # (a shared rule may be run at the quick tier inside a thorough check:
+        #                                its own property's thorough tier does the deep exploration)
+        ck = (module_name, tier, id(db), frozenset(rule_ids))
         if ck in _ABSORB_CACHE:
             sub, broken = _ABSORB_CACHE[ck]
         else:
-            sub = Check(module_name, self.tier, self.seed)
+            sub = Check(module_name, tier, self.seed)
             sub.known = []
             sub.info = self.info
             sub.is_sub = True
